@@ -393,6 +393,20 @@ def run(ck, P):
     okf = okf and bool(upd) and len(pf) == 1 and pf[0].block.id not in fr.in_loop_blocks()
     ck.ob("C06.5-JOIN-BEFORE-FREE", fr.site("reverse teardown"), okf, "stage constants descend %s, loop shifts right, pool freed after the loop: %s" % (vals, okf))
 
+    # a pool that may already have workers is never torn down as if it had none: every call that can create a thread is dominated,
+    # in its function or in m_thpool_new for the pool under construction, by the store that sets INITED_STARTED
+    tn = fns["m_thpool_new"]
+    ck.analysed(tn)
+    creators = [e for e in tn.calls() if e.callee in ("add_threads", "pthread_create")]
+    sets = [e for e in tn.events() if e.kind == "assign" and S(e.lhs) == "pool->init_state" and e.e["op"] == "|=" and cval(e.rhs) == E["INITED_STARTED"]]
+    ck.need(sets, "m_thpool_new no longer sets INITED_STARTED")
+    oks = bool(creators) and all(any(tn.ev_dominates(s_, c_) for s_ in sets) for c_ in creators)
+    ck.ob("C06.5-JOIN-BEFORE-FREE", tn.site("started before the first worker"), oks,
+          "INITED_STARTED is set before the first worker thread can be created: a failing pthread_create is followed by a teardown that stops and "
+          "joins the workers that did start" if oks else
+          "m_thpool_new creates workers before it marks the pool as started: when the k-th pthread_create fails, m_thpool_free skips wait_pool and "
+          "destroys the mutex, the condition variable and the pool under the k-1 workers that are already running")
+
     ck.not_decided += ["absence of deadlock / lost wake-ups over all interleavings (1-3 are the necessary conditions)",
                        "'returns only after every accepted task completed' as a liveness statement", "effect of lazy creation on parallelism"]
     ck.assumptions.append("m_thpool_free is not called concurrently with submitters (API contract); pthread primitives behave per POSIX")
